@@ -7,7 +7,8 @@
 (***************************************************************************)
 EXTENDS YMerge, Json, CSV, IOUtils, SequencesExt
 
-VARIABLES lx, rx       \* indexes of the values held under the key "k" on the two sides
+VARIABLES lx, rx,      \* indexes of the values held under the key "k" on the two sides
+          fam         \* "flat": k, z are keys of the root Hash; "nested": two sibling Hashes p, q hold the same keys k, z
 S(t, v) == [t |-> t, v |-> v]
 Sc(t, v) == NewScalar(t, v)
 MapT(keys, kids) == [NewCont("map") EXCEPT !.keys = keys, !.kids = kids]
@@ -18,19 +19,25 @@ Vals == << Sc("int", "1"), Sc("str", "a"), SeqT(<<>>), SeqT(<<Sc("int", "1")>>),
            MapT(<<>>, <<>>), MapT(<<S("str", "a")>>, <<Sc("int", "1")>>), MapT(<<S("str", "b")>>, <<Sc("str", "a")>>),
            SetT(<<Sc("str", "a")>>), SetT(<<Sc("str", "b")>>),
            SeqT(<<Rec("1", "a")>>), SeqT(<<Rec("1", "b"), Rec("2", "a")>>), SeqT(<<MapT(<<S("str", "v")>>, <<Sc("str", "a")>>)>>) >>
-Init == lx \in 1..Len(Vals) /\ rx \in 1..Len(Vals)
-Next == UNCHANGED <<lx, rx>>
-Spec == Init /\ [][Next]_<<lx, rx>>
+Init == lx \in 1..Len(Vals) /\ rx \in 1..Len(Vals) /\ fam \in {"flat", "nested"}
+Next == UNCHANGED <<lx, rx, fam>>
+Spec == Init /\ [][Next]_<<lx, rx, fam>>
 
 \* "z" is a second key present on both sides; its right-hand value 1 is the very object CPython shares with every other
 \* 1 of the document (Vals[1], the elements of Vals[4], Vals[5]): a rule must govern its own path only
-L == MapT(<<S("str", "k"), S("str", "z")>>, <<Vals[lx], Sc("int", "5")>>)
-R == MapT(<<S("str", "n"), S("str", "k"), S("str", "z")>>, <<Sc("int", "2"), Vals[rx], Sc("int", "1")>>)
+LSub == MapT(<<S("str", "k"), S("str", "z")>>, <<Vals[lx], Sc("int", "5")>>)
+RSub == MapT(<<S("str", "k"), S("str", "z")>>, <<Vals[rx], Sc("int", "1")>>)
+L == IF fam = "flat" THEN MapT(<<S("str", "k"), S("str", "z")>>, <<Vals[lx], Sc("int", "5")>>)
+     ELSE MapT(<<S("str", "p"), S("str", "q")>>, <<LSub, LSub>>)
+\* nested: the two right-hand Hashes are equal (their scalars are even the same objects in CPython); a rule for /p/k or /p
+\* must not reach /q
+R == IF fam = "flat" THEN MapT(<<S("str", "n"), S("str", "k"), S("str", "z")>>, <<Sc("int", "2"), Vals[rx], Sc("int", "1")>>)
+     ELSE MapT(<<S("str", "p"), S("str", "q")>>, <<RSub, RSub>>)
 lhs == TabOf(L)
 doc == TabOf(R)
 fresh == TRUE
 side == "R"
-Base(h, a, o, s) == [hashes |-> h, arrays |-> a, aoh |-> o, sets |-> s, idkey |-> "", amode |-> "stop", rules |-> <<>>, keys |-> <<>>, lvl |-> 0]
+Base(h, a, o, s) == [hashes |-> h, arrays |-> a, aoh |-> o, sets |-> s, idkey |-> "", amode |-> "stop", rules |-> <<>>, keys |-> <<>>, at |-> <<>>]
 Bases == {Base("deep", "all", "all", "unique"), Base("left", "left", "left", "left"), Base("right", "right", "right", "right"),
           Base("deep", "unique", "deep", "unique")}
 Common == {k \in {R.keys[j].v : j \in 1..Len(R.keys)} : \E j \in 1..Len(L.keys) : L.keys[j].v = k /\ L.keys[j].t = "str"}
@@ -40,15 +47,23 @@ ModesFor(v) == IF v.k = "map" THEN {"deep", "left", "right"}
                ELSE IF IsAoHTree(v) THEN {"all", "left", "right", "unique", "deep"}
                ELSE IF v.k = "seq" THEN {"all", "left", "right", "unique"}
                ELSE {"left", "right"}
-Cfgs == UNION {{[b EXCEPT !.rules = <<[k |-> k, mode |-> m]>>] : b \in Bases, m \in ModesFor(RVal(k))} : k \in Common}
+FlatCfgs == UNION {{[b EXCEPT !.rules = <<[k |-> k, mode |-> m]>>] : b \in Bases, m \in ModesFor(RVal(k))} : k \in Common}
         \cup {[b EXCEPT !.keys = <<[k |-> k, idkey |-> ik]>>, !.aoh = "deep"] : b \in Bases, k \in {x \in Common : IsAoHTree(RVal(x))}, ik \in {"id", "v"}}
+NestedCfgs == UNION {{[b EXCEPT !.rules = <<[k |-> "p/" \o k, path |-> <<"p", k>>, mode |-> m]>>] : b \in Bases, m \in ModesFor(ValOf(RSub, S("str", k)))} : k \in {"k", "z"}}
+        \cup {[b EXCEPT !.rules = <<[k |-> "p", path |-> <<"p">>, mode |-> m]>>] : b \in Bases, m \in {"deep", "left", "right"}}
+        \cup {[b EXCEPT !.keys = <<[k |-> "p/k", path |-> <<"p", "k">>, idkey |-> ik]>>, !.aoh = "deep"] : b \in {x \in Bases : IsAoHTree(Vals[rx])}, ik \in {"id", "v"}}
+Cfgs == IF fam = "flat" THEN FlatCfgs ELSE NestedCfgs
 Result(c) == MergeDocs(L, R, c, "stop")
 
 \* the rule decides for its node whatever the command line says
-RuleWins == (side = "R" /\ fresh /\ L.k = "map") => \A c \in Cfgs :
+RuleWins == (side = "R" /\ fresh /\ L.k = "map" /\ fam = "flat") => \A c \in Cfgs :
   (Len(c.rules) = 1 /\ c.hashes = "deep" /\ c.rules[1].mode \in {"left", "right"}) =>
      LET m == Result(c) k == S("str", c.rules[1].k) IN
      m.ok => TEq(ValOf(m.tr, k), IF c.rules[1].mode = "left" THEN ValOf(L, k) ELSE ValOf(R, k))
+\* ... and for no other node: under /q the result is what the same merge gives without any rule
+RuleIsLocal == fam = "nested" => \A c \in Cfgs :
+  LET m == Result(c) plain == MergeDocs(L, R, [c EXCEPT !.rules = <<>>, !.keys = <<>>], "stop") q == S("str", "q") IN
+  (m.ok /\ plain.ok /\ Len(c.keys) = 0) => TEq(ValOf(m.tr, q), ValOf(plain.tr, q))
 
 CfgName(c) == c.hashes \o "/" \o c.arrays \o "/" \o c.aoh \o "/" \o c.sets \o "#"
               \o (IF Len(c.rules) = 1 THEN "rule:" \o c.rules[1].k \o "=" \o c.rules[1].mode ELSE "key:" \o c.keys[1].k \o "=" \o c.keys[1].idkey)
